@@ -22,27 +22,68 @@ func init() {
 	})
 }
 
-// errLiteral finds the ErrArgumentUnsatisfied composite literal in f and the values stored into its fields.
-func errLiteral(f *ssa.Function) (*ssa.Alloc, map[string]ssa.Value) {
-	var lit *ssa.Alloc
+// errLiteral finds the ErrArgumentUnsatisfied composite literal in f and the values stored into its fields. A call
+// of a pure constructor shared by several detection sites (`newErrArgumentUnsatisfied(f, args, inputs, convs)`: one
+// return, one literal, every field set from a parameter) counts as the literal at that call, with the fields bound to
+// the call's arguments.
+func errLiteral(f *ssa.Function) (ssa.Instruction, map[string]ssa.Value) {
+	var lit ssa.Instruction
 	fields := map[string]ssa.Value{}
-	core.Instrs(f, func(in ssa.Instruction) {
-		al, ok := in.(*ssa.Alloc)
-		if !ok || core.NamedOf(al.Type()) != "ErrArgumentUnsatisfied" {
-			return
-		}
-		lit = al
-		for _, ref := range *al.Referrers() {
-			if fa, ok := ref.(*ssa.FieldAddr); ok {
-				fr, _ := core.AsFieldAddr(fa)
-				for _, r2 := range *fa.Referrers() {
-					if st, ok := r2.(*ssa.Store); ok && st.Addr == ssa.Value(fa) {
-						fields[fr.Field] = st.Val
+	direct := func(g *ssa.Function) (*ssa.Alloc, map[string]ssa.Value) {
+		var l *ssa.Alloc
+		fs := map[string]ssa.Value{}
+		core.Instrs(g, func(in ssa.Instruction) {
+			al, ok := in.(*ssa.Alloc)
+			if !ok || core.NamedOf(al.Type()) != "ErrArgumentUnsatisfied" {
+				return
+			}
+			l = al
+			for _, ref := range *al.Referrers() {
+				if fa, ok := ref.(*ssa.FieldAddr); ok {
+					fr, _ := core.AsFieldAddr(fa)
+					for _, r2 := range *fa.Referrers() {
+						if st, ok := r2.(*ssa.Store); ok && st.Addr == ssa.Value(fa) {
+							fs[fr.Field] = st.Val
+						}
 					}
 				}
 			}
+		})
+		return l, fs
+	}
+	if l, fs := direct(f); l != nil {
+		return l, fs
+	}
+	for _, ci := range core.Calls(f) {
+		g := ci.Common().StaticCallee()
+		if g == nil || g == f || g.Parent() != nil || len(g.Blocks) != 1 || g.Pkg != core.Outer(f).Pkg {
+			continue
 		}
-	})
+		l, fs := direct(g)
+		if l == nil || len(core.Returns(g)) != 1 {
+			continue
+		}
+		pure := true
+		bound := map[string]ssa.Value{}
+		for name, v := range fs {
+			prm, isPrm := core.Strip(v).(*ssa.Parameter)
+			if !isPrm {
+				pure = false
+				break
+			}
+			for i, q := range g.Params {
+				if q == prm && i < len(ci.Common().Args) {
+					bound[name] = ci.Common().Args[i]
+				}
+			}
+		}
+		if !pure {
+			continue
+		}
+		if in, ok := ci.(ssa.Instruction); ok {
+			lit, fields = in, bound
+		}
+	}
 	return lit, fields
 }
 
@@ -210,7 +251,7 @@ func runUnsat(c *Ctx) {
 
 	// when the literal lives in a pure constructor (a step that only assembles the error from what it is handed), the
 	// decision is made where the constructor is called: read U1 there, with the constructor's call as "the literal"
-	ufD, litD, unsatD := uf, ssa.Value(lit), unsat
+	ufD, litD, unsatD := uf, lit.(ssa.Value), unsat
 	if uf != gb {
 		rets := core.Returns(uf)
 		pure := len(rets) == 1
@@ -681,11 +722,11 @@ func runUnsat(c *Ctx) {
 	rerr := false
 	for _, r := range core.Returns(res) {
 		for _, v := range core.ReturnOperand(r, len(r.Results)-1) {
-			if core.Strip(v) == ssa.Value(rlit) {
+			if core.Strip(v) == rlit.(ssa.Value) {
 				rerr = true
 			}
 			for _, sv := range p.ISources(v) {
-				if core.Strip(sv) == ssa.Value(rlit) {
+				if core.Strip(sv) == rlit.(ssa.Value) {
 					rerr = true
 				}
 			}
@@ -769,6 +810,19 @@ func (c *Ctx) containsSuppliedConvs(ib *ssa.Function, s ssa.Value, at ssa.Instru
 				lenOK = true
 			}
 			return copied && lenOK
+		case *ssa.Parameter:
+			// the list handed to a private step (`b.generateConverters(g, root, convs)`): what the call site hands in
+			if b := c.P.Bind(x); b != ssa.Value(x) {
+				if bi, isI := b.(ssa.Instruction); isI && bi.Parent() == at.Parent() {
+					return ok(b)
+				}
+				// judged at the step's call site
+				for _, site := range c.P.Callers(x.Parent()) {
+					if si, isI := site.(ssa.Instruction); isI {
+						return c.containsSuppliedConvs(ib, b, si)
+					}
+				}
+			}
 		default:
 			if isConvsField(v) {
 				return true
